@@ -2,12 +2,12 @@ package main
 
 import (
 	"flag"
-	"runtime/debug"
-	"strings"
 	"fmt"
 	"math/rand"
 	"path/filepath"
 	"reflect"
+	"runtime/debug"
+	"strings"
 
 	"github.com/TarsCloud/TarsGo/tars/protocol/codec"
 	"verifharness/internal/tr"
